@@ -4,6 +4,7 @@ an operation sequence (single bytes, explicit flushes, the first Close), the ato
 are determined by the normal form `norm`, hence the main theorem.
 -/
 import Compress.Proofs.XWSplitRun
+import Compress.Proofs.XWSplitLog
 
 namespace Compress.Proofs.XWSplit
 open Compress Compress.XFlate
@@ -108,13 +109,16 @@ theorem aInit_inv (chunk index : Int) (hasConf : Bool) : Inv (effChunk chunk has
 /-- the model run against `oracleOf Z …` computes the function-driven writer. -/
 theorem run_oracleOf (Z : ZFun) (crc : List UInt8 → Nat) (level chunk index : Int) (hasConf : Bool)
     (ops : List WOp) (s0 : XWState)
-    (h0 : newWriter level chunk index hasConf {} (oracleOf Z level chunk hasConf ops) = some s0) :
+    (h0 : newWriter level chunk index hasConf {} (oracleOf Z level chunk hasConf ops) = some s0)
+    (P : ZLog → ZSt → Prop) (hP : LogClosed Z (effLevel level hasConf) P) :
     ∃ z, proj (runW crc s0 ops).1 z =
         aRun crc Z (effLevel level hasConf) (aInit chunk index hasConf) ops ∧
-      (runW crc s0 ops).1.bad = false := by
-  obtain ⟨h1, h2, h3⟩ := newWriter_sim level chunk index hasConf _ s0 h0
+      (runW crc s0 ops).1.bad = false ∧ P (runW crc s0 ops).1.zlog z := by
+  obtain ⟨h1, h2, h3, h4⟩ := newWriter_sim level chunk index hasConf _ s0 h0
   have hi : Inv (effChunk chunk hasConf) (proj s0 {}) := by rw [h1]; exact aInit_inv chunk index hasConf
-  have := run_sim crc Z (effLevel level hasConf) ops s0 {} [] h2 hi (by intro _; rw [h3, List.append_nil])
+  have hl : P s0.zlog {} := by
+    rw [h4]; exact hP.reset [] {} hP.init
+  have := run_sim crc Z (effLevel level hasConf) P hP ops s0 {} [] h2 hi hl (by intro _; rw [h3, List.append_nil])
   rw [h1] at this
   exact this
 
@@ -128,10 +132,34 @@ theorem split_independent (Z : ZFun) (crc : List UInt8 → Nat) (level chunk ind
     (runW crc s0 ops).1.err = (runW crc s0' ops').1.err ∧
     (runW crc s0 ops).1.outOff = (runW crc s0' ops').1.outOff ∧
     (runW crc s0 ops).1.bad = false ∧ (runW crc s0' ops').1.bad = false := by
-  obtain ⟨z, h1, h2⟩ := run_oracleOf Z crc level chunk index hasConf ops s0 h0
-  obtain ⟨z', h1', h2'⟩ := run_oracleOf Z crc level chunk index hasConf ops' s0' h0'
+  obtain ⟨z, h1, h2, _⟩ := run_oracleOf Z crc level chunk index hasConf ops s0 h0 _ (logClosed_true Z _)
+  obtain ⟨z', h1', h2', _⟩ := run_oracleOf Z crc level chunk index hasConf ops' s0' h0' _ (logClosed_true Z _)
   have e : proj (runW crc s0 ops).1 z = proj (runW crc s0' ops').1 z' := by
     rw [h1, h1', aRun_atoms, aRun_atoms, atoms_of_norm ops ops' hn]
   exact ⟨congrArg (fun a => a.sink.got) e, congrArg AW.allRecs e, congrArg AW.err e, congrArg AW.outOff e, h2, h2'⟩
+
+/-- `oracleOf Z …` IS the behaviour of a compressor computing `Z`: the oracle answers exactly
+    the calls the writer makes and, in the log of these calls, after every flush the bytes
+    emitted since the last Reset are `Z.emit level (data since the Reset) (flush positions since
+    the Reset)`. -/
+theorem oracleOf_behaves (Z : ZFun) (hS : Z.Streaming) (crc : List UInt8 → Nat) (level chunk index : Int)
+    (hasConf : Bool) (ops : List WOp) (s0 : XWState)
+    (h0 : newWriter level chunk index hasConf {} (oracleOf Z level chunk hasConf ops) = some s0) :
+    (runW crc s0 ops).1.bad = false ∧ ZBehaves Z (effLevel level hasConf) (runW crc s0 ops).1.zlog := by
+  obtain ⟨z, _, h2, h3⟩ := run_oracleOf Z crc level chunk index hasConf ops s0 h0 _
+    (LG_closed Z (effLevel level hasConf) hS)
+  exact ⟨h2, LG_behaves Z _ h3⟩
+
+/-! ### non-vacuity -/
+
+/-- the hypotheses of `split_independent` are satisfiable by different operation sequences:
+    a chunk-filling Write followed by a sync flush, against the same data written byte-wise with
+    empty Writes in between. -/
+example : norm [.write [1, 2, 3], .flush 0, .write [4], .close] =
+    norm [.write [1], .write [], .write [2, 3], .write [], .flush 0, .write [4], .write [], .close, .write [9]] := by
+  decide
+
+example : ∃ s0, newWriter 6 2 2 true {}
+    (oracleOf storedZ 6 2 true [.write [1, 2, 3], .flush 0, .write [4], .close]) = some s0 := ⟨_, rfl⟩
 
 end Compress.Proofs.XWSplit
